@@ -27,6 +27,9 @@ SM = "slotmap::SlotMap"
 
 def m(crate, name):
     bs = [b for b in crate.by_name.get(name, []) if b.impl_self == SM and not b.impl_trait and b.kind != "Closure"]
+    if not bs:
+        # a private helper of the map written as a free function of its module (`fn search(entries: &[(Slot, Slot)], l)`)
+        bs = [b for b in crate.by_name.get(name, []) if not b.impl_self and b.kind != "Closure" and (b.file or "").endswith("slotmap.rs")]
     if len(bs) != 1:
         raise mir.AnchorMissing("SlotMap::" + name, "found %d" % len(bs))
     return bs[0]
@@ -85,9 +88,20 @@ def q1(ctx):
                           "%s constructs a SlotMap from %s (not the empty vector): sortedness is not established" % (C.short(crate.root_of(b).id), role_str(r)), where_of(b, bi, s.get("line")))
     # search = binary_search_by_key(&l, |(x,_)| *x)
     se = m(crate, "search")
+    def haystack_is_the_map(se_, site):
+        r_ = se_.role_of_operand(site.args[0])
+        if role_mentions_field(r_, FLD):
+            return True
+        # free-function form: the slice searched is a parameter, and every caller hands in its own `map` field
+        ps = [x[1] for x in role_walk(r_) if isinstance(x, tuple) and x[0] == "param"]
+        if se_.impl_self or len(ps) != 1:
+            return False
+        pos = se_.param_index(ps[0])
+        sites = [(b_, c_) for b_ in crate.bodies.values() for c_ in b_.calls if c_.callee and c_.callee.target == se_.id and not b_.blocks[c_.bb]["cleanup"]]
+        return bool(sites) and pos is not None and all(len(c_.args) >= pos and role_mentions_field(b_.role_of_operand(c_.args[pos - 1]), FLD) for b_, c_ in sites)
     bs = [c for c in se.calls if c.callee and c.callee.name.startswith("binary_search")]
     ok = len(bs) == 1 and bs[0].callee.name == "binary_search_by_key" and strip_role(se.role_of_operand(bs[0].args[1])) == P(se, 2) \
-        and role_mentions_field(se.role_of_operand(bs[0].args[0]), FLD) and closure_returns_component(crate, se.role_of_operand(bs[0].args[2]), "0") \
+        and haystack_is_the_map(se, bs[0]) and closure_returns_component(crate, se.role_of_operand(bs[0].args[2]), "0") \
         and strip_role(se.role_of_local(0))[0] == "call" and strip_role(se.role_of_local(0))[1] == "binary_search_by_key"
     ctx.check(ok, "search-is-binary-search-on-key", "search(l) = map.binary_search_by_key(&l, |(x, _)| *x)", "SlotMap::search is no longer a binary search for l on the key component", where_of(se))
     # insert
